@@ -21,6 +21,8 @@ func init() {
 			ruleDelimiterRecv(c)
 			ruleFullReads(c)
 			ruleRecordFilledByFullRead(c)
+			rulePerChannelState(c)
+			ruleRawDecoderReadsStream(c)
 		},
 	})
 	register(&Def{
@@ -44,6 +46,8 @@ func init() {
 			ruleFullReads(c)
 			ruleRecordFilledByFullRead(c)
 			ruleDataWithReaderError(c)
+			ruleHeaderLoopExits(c)
+			ruleRawDecoderReadsStream(c)
 			ruleReaderAcceptsDataEOF(c)
 		},
 	})
